@@ -168,6 +168,16 @@ def _outer_inv(v):
         pdv = None
     if pdv is not None:
         out.append(("leaked_loop_variable", z3.Implies(z3.Not(none), _val(pdv) == Path.Job(I, J))))
+    # the listing of the iteration directory scanned LAST also survives the loop (Python keeps `plate_dirs` bound): it describes that directory -
+    # possibly an empty one that carries no information -, not the iteration of the last completed step
+    try:
+        pds = v.plate_dirs
+    except Exception:
+        pds = None
+    if pds is not None and hasattr(pds, "seq"):
+        last = Path.it(z3.Select(SI.cols, v.it - 1))
+        out.append(("leaked_listing_is_that_of_the_directory_scanned_last", z3.Implies(v.it > 0, z3.And(pds.seq.length >= 0, z3.ForAll([j], fs.job_dir(last, j) == z3.And(j >= 0, j < pds.seq.length),
+                                                                                                   patterns=[z3.Select(z3.Select(fs.dir_job, last), j)])))))
     return out
 
 
@@ -198,7 +208,7 @@ def _inner_inv(v):
 
 
 _T = {"last_successful_run_meta": TOpt(TMeta), "current_iter_index": TOpt(TInt), "current_plate_idx": TOpt(TInt), "plate_dir": TPath}
-ex.loop("for#0", invariant=_outer_inv, types=dict(_T))
+ex.loop("for#0", invariant=_outer_inv, types=dict(_T, plate_dirs=TSeq(TPath)))
 ex.loop("for#1", invariant=_inner_inv, types=dict(_T))
 
 
